@@ -534,8 +534,9 @@ def convert_argmax_to_depthwise_conv_and_max_pool(op: Operation, arch, nng) -> O
         identity_quant = QuantizationParameters()
         identity_quant.zero_point = 0
         identity_quant.scale_f32 = 1.0
-        # Add last dimension to ofm shape
-        ofm.shape += [1]
+        # Add last dimension to ofm shape (on a new list: the current one is also the tensor's original_shape, which
+        # is what the TFLite writer emits for the tensor)
+        ofm.set_all_shapes(ofm.shape + [1])
         ofm.ops = []
 
         # Create 1x1 Depthwise convolution with 2**7 weights for each channel to convert precision to 16 bit and shift
